@@ -555,6 +555,9 @@ func mapOrderVerdictRule(P *Program, R *Report) {
 							continue // which element's error is reported may vary; the verdict (rejection) does not
 						}
 						d := desc(retValue(ret, i))
+						if (strings.Contains(d, "rangekey("+md+")") || strings.Contains(d, md+"[*]")) && onlyPicksMessage(P, fn, i) {
+							continue // the callers use it only to choose between rejections (which offender is named may vary, the verdict does not)
+						}
 						if strings.Contains(d, "rangekey("+md+")") || strings.Contains(d, md+"[*]") {
 							key := FuncKey(fn)
 							found = append(found, key)
@@ -825,4 +828,77 @@ func dispatchTable(P *Program, v ssa.Value) map[string]string {
 		return nil
 	}
 	return out
+}
+
+// onlyPicksMessage: result k of the unexported helper fn is used by its callers only in comparisons both of whose
+// outcomes reject at once, or in the text of an error (or not at all).
+func onlyPicksMessage(P *Program, fn *ssa.Function, k int) bool {
+	if fn.Object() == nil || fn.Object().Exported() {
+		return false
+	}
+	nCalls := 0
+	for _, caller := range P.AllFuncs {
+		if caller.Blocks == nil {
+			continue
+		}
+		sp := rejectSpec{Fn: FuncKey(caller), Err: -1, Bool: -1}
+		res := caller.Signature.Results()
+		for i := 0; i < res.Len(); i++ {
+			if isErrorType(res.At(i).Type()) {
+				sp.Err = i
+			} else if isBoolType(res.At(i).Type()) && sp.Bool < 0 {
+				sp.Bool = i
+			}
+		}
+		for _, ci := range callsTo(caller, fn) {
+			c, ok := ci.(*ssa.Call)
+			if !ok {
+				return false
+			}
+			nCalls++
+			var vals []ssa.Value
+			if fn.Signature.Results().Len() == 1 {
+				vals = []ssa.Value{c}
+			} else {
+				for _, r := range referrersOf(c) {
+					if ex, isEx := r.(*ssa.Extract); isEx && ex.Index == k {
+						vals = append(vals, ex)
+					}
+				}
+			}
+			for _, v := range vals {
+				for _, r := range referrersOf(v) {
+					switch u := r.(type) {
+					case *ssa.DebugRef:
+					case *ssa.BinOp:
+						for _, rr := range referrersOf(u) {
+							iff, isIf := rr.(*ssa.If)
+							if _, isDbg := rr.(*ssa.DebugRef); isDbg {
+								continue
+							}
+							if !isIf || !rejectsAtOnce(iff.Block().Succs[0], sp) || !rejectsAtOnce(iff.Block().Succs[1], sp) {
+								return false
+							}
+						}
+					case *ssa.MakeInterface:
+						for _, rr := range referrersOf(u) {
+							switch w := rr.(type) {
+							case *ssa.DebugRef:
+							case *ssa.Store:
+								// an element of the variadic argument list of an error constructor
+								if _, isIA := w.Addr.(*ssa.IndexAddr); !isIA {
+									return false
+								}
+							default:
+								return false
+							}
+						}
+					default:
+						return false
+					}
+				}
+			}
+		}
+	}
+	return nCalls > 0
 }
